@@ -1089,6 +1089,12 @@ func c13VarArgs(call *ssa.Call) []ssa.Value {
 // hand-over leaves a granted hold nobody owns (an acquisition that reports an
 // error would hold something).
 func c13CheckRequesters(c *Ctx, ro *c13Roles) {
+	c13CheckRequestersNamed(c, ro, func(m *types.Func, fn *ssa.Function) string { return "concurrency/lock.OuterCancel." + m.Name() })
+}
+
+// c13CheckRequestersNamed: name gives the construct prefix of a requester (the
+// fixture uses the function's own name).
+func c13CheckRequestersNamed(c *Ctx, ro *c13Roles, name func(m *types.Func, fn *ssa.Function) string) {
 	r, p := c.R, c.P
 	req, reply, closeCh := c13ChanID(ro.ocReq), c13ChanID(ro.holdResp), c13ChanID(ro.ocClose)
 	const (
@@ -1109,6 +1115,38 @@ func c13CheckRequesters(c *Ctx, ro *c13Roles) {
 		var bad []string
 		var unf c13Unf
 		sends := 0
+		// a requester that is given a context must be able to give up while it
+		// waits to hand its request over: that wait is a select which also has
+		// the Done channel of the context parameter
+		var ctxParam *ssa.Parameter
+		for _, pa := range fn.Params {
+			if namedKey(pa.Type()) == "context.Context" {
+				ctxParam = pa
+			}
+		}
+		var handBad, handUnknown []string
+		handOver := func(x *C13Ctx, in ssa.Instruction, sel *ssa.Select) {
+			if ctxParam == nil {
+				return
+			}
+			if sel != nil {
+				for _, s := range sel.States {
+					if s.Dir != types.RecvOnly {
+						continue
+					}
+					call, ok := c13StripConv(x.Resolve(s.Chan)).(*ssa.Call)
+					if !ok || !call.Call.IsInvoke() || call.Call.Method == nil || call.Call.Method.Name() != "Done" || namedKey(call.Call.Value.Type()) != "context.Context" {
+						continue
+					}
+					if c13StripConv(x.Resolve(call.Call.Value)) == ssa.Value(ctxParam) {
+						return
+					}
+					handUnknown = append(handUnknown, "the context whose Done channel is waited for at "+p.Pos(instrPos(in))+" could not be traced to the context parameter")
+					return
+				}
+			}
+			handBad = append(handBad, "the request is handed to the loop at "+p.Pos(instrPos(in))+" by a wait that does not also watch the Done channel of the context parameter: a caller blocked there keeps waiting after its context ended")
+		}
 		ex := NewC13Explorer(p)
 		ex.Explore(fn, 0, &C13Hooks{
 			Instr: func(x *C13Ctx, in ssa.Instruction, st uint64) uint64 {
@@ -1116,6 +1154,7 @@ func c13CheckRequesters(c *Ctx, ro *c13Roles) {
 				case *ssa.Send:
 					if c13ChanKey(x, v.Chan) == req {
 						sends++
+						handOver(x, in, nil)
 						return st | handed
 					}
 				case *ssa.UnOp:
@@ -1136,6 +1175,7 @@ func c13CheckRequesters(c *Ctx, ro *c13Roles) {
 					switch key := c13ChanKey(x, s.Chan); {
 					case key == req && s.Dir == types.SendOnly:
 						sends++
+						handOver(x, ifi, sel)
 						return st | handed
 					case key == reply && s.Dir == types.RecvOnly:
 						return st | replied
@@ -1163,7 +1203,20 @@ func c13CheckRequesters(c *Ctx, ro *c13Roles) {
 			continue
 		}
 		n++
-		construct := "concurrency/lock.OuterCancel." + m.Name() + " collects the reply"
+		if ctxParam != nil {
+			hc := name(m, fn) + " cancellable hand-over"
+			switch {
+			case len(handBad) > 0 && (len(unf.list) > 0 || len(ex.Incomplete) > 0):
+				r.Undecide("%s: %s — but calls could not be followed", hc, handBad[0])
+			case len(handBad) == 0 && len(handUnknown) > 0:
+				r.Undecide("%s: %s", hc, handUnknown[0])
+			default:
+				r.Check(len(handBad) == 0, "C13.OC-outercancel", hc, p.Pos(fn.Pos()),
+					"the wait that hands the request to the loop also watches the Done channel of the context parameter",
+					"a waiter whose context ends does not stop waiting: "+c13FirstOr(handBad, ""), c13Uniq(c13Sorted(handBad))...)
+			}
+		}
+		construct := name(m, fn) + " collects the reply"
 		if len(bad) > 0 && (len(unf.list) > 0 || len(ex.Incomplete) > 0) {
 			r.Undecide("%s: %s — but calls could not be followed: %s", construct, bad[0], strings.Join(append(unf.list, ex.Incomplete...), "; "))
 			continue
@@ -1292,5 +1345,26 @@ func c13ReleaseFixture(fp *Prog, fr *Report) {
 		}
 		bad = append(bad, sub.Undecided...)
 		fr.Check(len(bad) == 0, "release", FuncName(fp, fn), fp.Pos(fn.Pos()), "clean", "release rule broken", bad...)
+	}
+}
+
+// c13RequesterFixture runs the requester rules on fixtures/c13req.
+func c13RequesterFixture(fp *Prog, fr *Report) {
+	oc := fp.Named("", "Owner")
+	hold := fp.Named("", "request")
+	ro := &c13Roles{p: fp, oc: oc, hold: hold}
+	ro.ocReq, ro.ocClose, ro.holdResp = c13Fid(oc, "req"), c13Fid(oc, "closed"), c13Fid(hold, "reply")
+	sub := NewReport("fixture:c13req", fr.Tier)
+	c13CheckRequestersNamed(&Ctx{P: fp, R: sub}, ro, func(m *types.Func, fn *ssa.Function) string { return FuncName(fp, fn) })
+	for _, o := range sub.Obs {
+		fn := strings.SplitN(o.Construct, " ", 2)[0]
+		if o.Status == StViolation {
+			fr.Violation("requester", fn, o.Pos, o.Message, o.Witness...)
+		} else {
+			fr.OK("requester", fn, o.Pos, o.Message)
+		}
+	}
+	for _, u := range sub.Undecided {
+		fr.Undecide("%s", u)
 	}
 }
